@@ -817,13 +817,21 @@ func (s *session) closeLocked() error {
 }
 
 func (s *session) readDisconnected(oldConn net.Conn, err error) {
-	status := s.getStatus()
-	switch status {
-	case statusPassiveClosed, statusActiveClosed, statusPassiveClosing:
-		return
-	case statusActiveClosing:
-	default:
-		s.changeStatus(statusPassiveClosing)
+	var status int32
+	for {
+		status = s.getStatus()
+		switch status {
+		case statusPassiveClosed, statusActiveClosed, statusPassiveClosing:
+			return
+		case statusActiveClosing:
+		default:
+			// must not overwrite a concurrent change to statusActiveClosing
+			// made by Close, otherwise both paths finish the session
+			if !atomic.CompareAndSwapInt32(&s.status, status, statusPassiveClosing) {
+				continue
+			}
+		}
+		break
 	}
 
 	s.peer.sessHub.deleteSession(s.ID(), s)
